@@ -14,6 +14,8 @@
      stream_store / stream_mapping / stream_sketch, stream_store_ops
                                        the bytes the Go builder emits (for a message; for any
                                        sequence of StoreBuilder calls)
+     marshal_store / marshal_mapping / marshal_sketch   the bytes proto.Marshal emits for the
+                                       generated types (entry order = list order)
      parse_store / parse_mapping / parse_sketch    the schema parser (any field order, unknown
                                        fields skipped, packed and unpacked doubles, last wins, merging)
      store_content p                   map entries, then the contiguous counts at offset + k, as
@@ -26,6 +28,7 @@
      store_ok p        keys and offset are int32;  store_small p : fewer than 2^31 entries and counts
      mapping_ok m      the enum value fits 32 bits;  sketch_ok s : the above for the parts present
      store_op_ok op    the int32 condition on one StoreBuilder call;  field_ok f : 1 <= f <= 2^29 - 1
+     keys_ok l         every key of l is an int32
    Layer A (Spec/Bins.v, Spec/BinsProofs.v): bins, wf (canonical), pos (weights > 0), bmerge, norm. *)
 From Coq Require Import Bool NArith ZArith List Permutation.
 From SK Require Import Base.Prelude Base.F64 Codec.Codec Spec.Bins Spec.BinsProofs Wire.Proto Wire.ProtoProofs.
@@ -140,9 +143,57 @@ Theorem C09_stream_equals_message : forall s : pb_sketch,
 Proof. exact parse_sketch_stream. Qed.
 Print Assumptions C09_stream_equals_message.
 
+(* the other wire form of the same messages, as proto.Marshal writes the generated types (fields by
+   number, contiguousBinCounts PACKED, zero scalars omitted, empty list omitted): the parser
+   returns the same message *)
+Theorem C09_packed_roundtrip : forall (l acc : list f64),
+  pb_dec_packed (concat (map pb_enc_double l)) acc = Some (rev l ++ acc).
+Proof. exact packed_roundtrip. Qed.
+Print Assumptions C09_packed_roundtrip.
+
+Theorem C09_marshal_equals_message_store : forall p : pb_store,
+  store_ok p -> store_small p -> parse_store (marshal_store p) = Some p.
+Proof. exact parse_store_marshal. Qed.
+Print Assumptions C09_marshal_equals_message_store.
+
+Theorem C09_marshal_equals_message_mapping : forall m : pb_mapping,
+  mapping_ok m -> parse_mapping (marshal_mapping m) = Some m.
+Proof. exact parse_mapping_marshal. Qed.
+Print Assumptions C09_marshal_equals_message_mapping.
+
+Theorem C09_marshal_equals_message : forall s : pb_sketch,
+  sketch_ok s -> parse_sketch (marshal_sketch s) = Some s.
+Proof. exact parse_sketch_marshal. Qed.
+Print Assumptions C09_marshal_equals_message.
+
+(* hence both wire forms of a message parse to the same thing *)
+Theorem C09_stream_and_marshal_agree : forall s : pb_sketch,
+  sketch_ok s -> parse_sketch (stream_sketch s) = parse_sketch (marshal_sketch s).
+Proof. intros; etransitivity; [eapply parse_sketch_stream|symmetry; eapply parse_sketch_marshal]; eauto. Qed.
+Print Assumptions C09_stream_and_marshal_agree.
+
 (* ================================================================== *)
 (* 3. ToProto then MergeWithProto, on Layer A                          *)
 (* ================================================================== *)
+(* the hypothesis f64_weights holds of every list whose weights are values of float64s
+   (rounding: Base/F64Proofs.v, rnd64 (f2q x) = f2q x), in particular of the content of a message *)
+Theorem C09_f64_weights_of_floats : forall l : list (Z * W),
+  Forall (fun kw => exists x : f64, snd kw = f2q x) l -> f64_weights l.
+Proof. exact f64_weights_floats. Qed.
+Print Assumptions C09_f64_weights_of_floats.
+
+Theorem C09_f64_weights_of_entries : forall lf : list (Z * f64), f64_weights (entries_content lf).
+Proof. exact f64_weights_entries. Qed.
+Print Assumptions C09_f64_weights_of_entries.
+
+(* stated on the floats of ANY message with non-negative counts: MergeWithProto is the merge of the
+   canonical form of the message's content; weights cross exactly *)
+Theorem C09_proto_merge_canon : forall (r : bins) (p : pb_store),
+  wf r = true -> pos r -> pb_nonneg p ->
+  merge_with_proto r p = bmerge r (bins_of_list (store_content p)).
+Proof. exact merge_with_proto_canon. Qed.
+Print Assumptions C09_proto_merge_canon.
+
 (* sparse / paginated form, every visiting order l of the bins; dense form (interior zeros skipped) *)
 Theorem C09_proto_roundtrip_sparse : forall (b : bins) (l : list (Z * W)),
   wf b = true -> pos b -> f64_weights b -> Permutation b l ->
@@ -188,6 +239,20 @@ Theorem C09_proto_roundtrip_bounded : forall (lim : limit) (r b : bins) (l : lis
   norm lim (merge_with_proto (norm lim r) (to_proto_dense b)) = norm lim (bmerge r b).
 Proof. exact proto_roundtrip_bounded. Qed.
 Print Assumptions C09_proto_roundtrip_bounded.
+
+(* end to end through the bytes: ToProto, the streaming writer, the parser, MergeWithProto
+   (keys_ok: the keys are int32, so that the int32(index) casts are the identity) *)
+Theorem C09_proto_roundtrip_wire_sparse : forall (r b : bins) (l : list (Z * W)),
+  wf r = true -> pos r -> wf b = true -> pos b -> f64_weights b -> keys_ok b -> Permutation b l ->
+  exists p, parse_store (stream_store (to_proto_sparse l)) = Some p /\ merge_with_proto r p = bmerge r b.
+Proof. exact wire_roundtrip_sparse. Qed.
+Print Assumptions C09_proto_roundtrip_wire_sparse.
+
+Theorem C09_proto_roundtrip_wire_dense : forall r b : bins,
+  wf r = true -> pos r -> wf b = true -> pos b -> f64_weights b -> keys_ok b ->
+  exists p, parse_store (stream_store (to_proto_dense b)) = Some p /\ merge_with_proto r p = bmerge r b.
+Proof. exact wire_roundtrip_dense. Qed.
+Print Assumptions C09_proto_roundtrip_wire_dense.
 
 (* the order in which MergeWithProto ranges over the Go map is irrelevant *)
 Theorem C09_proto_merge_order : forall (r : bins) (p p' : pb_store),
